@@ -3,6 +3,8 @@ package checks
 import (
 	"bytes"
 	"fmt"
+	"os"
+	"path/filepath"
 	"strings"
 
 	"github.com/ipfs/go-cid"
@@ -48,11 +50,11 @@ func (c10) Runs(t Tier) int {
 	if t == Thorough {
 		return 50000
 	}
-	return 700
+	return 1500
 }
 func (c10) RecordWidths() map[string]int { return nil }
 func (c10) RequiredProbes() []string {
-	return []string{"concurrent-builders", "sequential-builds-on-one-link-system", "seekable-source-after-header", "failed-build-before", "default-chunker", "default-chunker-at-block-boundary", "mixed-link-lengths", "aliased-entries", "non-murmur-hasher", "file-fragmentation", "rabin-chunker", "dir-permutation", "sharded-permutation", "quick-builder", "distinct-commit-orders>=2", "nested-shards", "straddles-shard-threshold", "multi-level-file"}
+	return []string{"concurrent-builders", "sequential-builds-on-one-link-system", "seekable-source-after-header", "failed-build-before", "recursive-import", "reimport-after-in-place-edit", "default-chunker", "default-chunker-at-block-boundary", "mixed-link-lengths", "aliased-entries", "non-murmur-hasher", "file-fragmentation", "rabin-chunker", "dir-permutation", "sharded-permutation", "quick-builder", "distinct-commit-orders>=2", "nested-shards", "straddles-shard-threshold", "multi-level-file"}
 }
 
 type c10Scenario struct {
@@ -95,9 +97,12 @@ func runBuild(width int, f func(ls *ipld.LinkSystem) (ipld.Link, uint64, error))
 func (c10) Run(ts *tape.Set, tier Tier) *Result {
 	res := &Result{}
 	shape := ts.T("shape")
-	kind := shape.Pick(3, 2, 3, 2, 2) // file, plain dir, sharded dir, quick builder, concurrent builders
+	kind := shape.Pick(6, 4, 6, 4, 4, 1) // file, plain dir, sharded dir, quick builder, concurrent builders, recursive import
 	if kind == 4 {
 		return c10Concurrent(ts, tier, res)
+	}
+	if kind == 5 {
+		return c10Recursive(ts, tier, res)
 	}
 	sc := &c10Scenario{}
 	res.Scenario = sc
@@ -543,6 +548,103 @@ func c10Concurrent(ts *tape.Set, tier Tier, res *Result) *Result {
 			return res
 		}
 	}
+	return res
+}
+
+// c10Recursive: the recursive importer over a real temporary tree. The same
+// tree imported twice (same and fresh link system) must give the same link,
+// and after a file was rewritten IN PLACE - same length, modification time put
+// back, the classic case a stat-based shortcut gets wrong - a re-import
+// through the link system used before must give what a fresh import gives.
+func c10Recursive(ts *tape.Set, tier Tier, res *Result) *Result {
+	shape := ts.T("shape")
+	sc := &c10Scenario{Kind: "BuildUnixFSRecursive"}
+	res.Scenario = sc
+	dir, err := os.MkdirTemp("", "verif-c10-")
+	if err != nil {
+		res.Skipped, res.SkipReason = true, err.Error()
+		return res
+	}
+	defer os.RemoveAll(dir)
+	r := tape.NewSplitMix(shape.Raw())
+	var files []string
+	var mk func(p string, depth int)
+	mk = func(p string, depth int) {
+		n := 1 + int(r.Next()%4)
+		for i := 0; i < n; i++ {
+			name := fmt.Sprintf("e%d", i)
+			if r.Next()%4 == 0 && depth < 2 {
+				sub := filepath.Join(p, name+"d")
+				_ = os.Mkdir(sub, 0o755)
+				mk(sub, depth+1)
+				continue
+			}
+			buf := make([]byte, 1+r.Next()%600)
+			for j := range buf {
+				buf[j] = byte(r.Next())
+			}
+			fp := filepath.Join(p, name+".bin")
+			_ = os.WriteFile(fp, buf, 0o644)
+			files = append(files, fp)
+		}
+	}
+	mk(dir, 0)
+	sc.Spec = fmt.Sprintf("temp tree with %d files", len(files))
+	res.probe("recursive-import")
+	build := func(w *world.World) buildResult {
+		var br buildResult
+		panicked, site, pmsg := guard(func() {
+			l, sz, err := builder.BuildUnixFSRecursive(dir, &w.LS)
+			br.err, br.size = err, sz
+			if l != nil {
+				br.link = l.String()
+			}
+		})
+		res.Execs++
+		if panicked {
+			br.err = fmt.Errorf("panic@%s: %s", site, pmsg)
+		}
+		return br
+	}
+	shared := world.New(store.New(), false)
+	first := build(shared)
+	if first.err != nil {
+		res.Skipped, res.SkipReason = true, "import fails: "+first.err.Error()
+		return res
+	}
+	again := build(shared)
+	fresh := build(world.New(store.New(), false))
+	sc.Builds = []string{"import", "import again (same link system)", "import (fresh link system)"}
+	for i, b := range []buildResult{again, fresh} {
+		if b.err != nil || b.link != first.link || b.size != first.size {
+			res.Violation = &Violation{Class: "c10/link-differs/recursive", Msg: fmt.Sprintf("importing the same tree again (%s) returned (%s, %d, %v), the first import (%s, %d)", sc.Builds[i+1], b.link, b.size, b.err, first.link, first.size)}
+			return res
+		}
+	}
+	// rewrite one file in place: same length, other bytes, mtime put back
+	fp := files[int(r.Next()%uint64(len(files)))]
+	if fi, err := os.Stat(fp); err == nil {
+		old, _ := os.ReadFile(fp)
+		nb := append([]byte(nil), old...)
+		for j := range nb {
+			nb[j] ^= 0x5a
+		}
+		if f, err := os.OpenFile(fp, os.O_WRONLY, 0); err == nil {
+			_, _ = f.Write(nb)
+			_ = f.Close()
+			_ = os.Chtimes(fp, fi.ModTime(), fi.ModTime())
+			edited := build(shared)
+			freshEdited := build(world.New(store.New(), false))
+			sc.Builds = append(sc.Builds, "re-import after an in-place edit (same link system)", "import of the edited tree (fresh link system)")
+			res.probe("reimport-after-in-place-edit")
+			if freshEdited.err == nil && (edited.err != nil || edited.link != freshEdited.link || edited.size != freshEdited.size) {
+				res.Violation = &Violation{Class: "c10/result-depends-on-earlier-builds/recursive", Msg: fmt.Sprintf("after %s was rewritten in place (same length, same mtime) a re-import through the link system used before returns (%s, %d, %v); a fresh import of the same tree returns (%s, %d)", filepath.Base(fp), edited.link, edited.size, edited.err, freshEdited.link, freshEdited.size)}
+				return res
+			}
+		}
+	}
+	res.NonTrivial = len(files) >= 2
+	res.Sig = fnvMix(0, 77, uint64(len(files)), tape.HashString(first.link))
 	return res
 }
 
